@@ -19,6 +19,24 @@ CORE_UNITS = [
 ]
 
 
+def _prune(prefix, keep, max_age_s=6 * 3600):
+    """drop cached artefacts of other source hashes, but only old ones (concurrent runs on scratch copies share the cache)"""
+    import time
+
+    now = time.time()
+    for f in os.listdir(CACHE):
+        p = os.path.join(CACHE, f)
+        if f.startswith(prefix) and p != keep and not f.endswith(".tmp"):
+            try:
+                if now - os.path.getmtime(p) > max_age_s:
+                    if os.path.isdir(p):
+                        shutil.rmtree(p, ignore_errors=True)
+                    else:
+                        os.remove(p)
+            except OSError:
+                pass
+
+
 def _run(cmd, cwd=None):
     r = subprocess.run(cmd, cwd=cwd, stdout=subprocess.PIPE, stderr=subprocess.STDOUT, text=True)
     if r.returncode != 0:
@@ -75,12 +93,7 @@ def core_bitcode(units=CORE_UNITS):
         os.replace(tmp, out)
     finally:
         shutil.rmtree(work, ignore_errors=True)
-    for f in os.listdir(CACHE):
-        if f.startswith("core-") and f.endswith(".bc") and os.path.join(CACHE, f) != out:
-            try:
-                os.remove(os.path.join(CACHE, f))
-            except OSError:
-                pass
+    _prune("core-", out)
     return out
 
 
@@ -152,14 +165,12 @@ def native_twin(harness_cpp_text, units=CORE_UNITS, tag="twin"):
             os.rename(work, objdir)
         except OSError:
             shutil.rmtree(work, ignore_errors=True)
-        for f in os.listdir(CACHE):
-            if f.startswith("obj-") and os.path.join(CACHE, f) != objdir and os.path.isdir(os.path.join(CACHE, f)) and not f.startswith("obj-tmp"):
-                if len(f) == len("obj-") + 16:
-                    shutil.rmtree(os.path.join(CACHE, f), ignore_errors=True)
+        _prune("obj-", objdir)
     hkey = hashlib.sha256((harness_cpp_text + key).encode()).hexdigest()[:16]
     exe = os.path.join(CACHE, "%s-%s" % (tag, hkey))
     if os.path.exists(exe):
         return exe
+    _prune(tag + "-", exe, 3 * 3600)
     work = tempfile.mkdtemp(prefix="n-", dir=CACHE)
     try:
         hp = os.path.join(work, "harness.cpp")
